@@ -118,6 +118,10 @@ func checkC05(c *Ctx) {
 	c.flagBitTables()
 	// whatever state the rings are in, their index arithmetic does not panic
 	c.ringMemorySafety()
+	// a delivery that cannot fit the subscriber's ring is refused, not waited for with the subscriber's write mutex held;
+	// what the broker itself produces (the largest will) fits the ring it chooses by default
+	c.ringSpaceAccounting()
+	c.defaultRingHoldsLargestWill()
 	c.oversizedPacketRejected()
 	c.failedResultsNotDereferenced()
 }
